@@ -83,6 +83,10 @@ class Ctx(object):
     def n(self, quick, thorough):
         """Per-shard example budget from total budgets for the two tiers."""
         total = quick if self.tier == "quick" else thorough
+        try:  # VERIF_BUDGET_SCALE (default 1) is only used by tools/mutate.py to run many scaled-down checks in parallel
+            total *= float(os.environ.get("VERIF_BUDGET_SCALE") or 1)
+        except ValueError:
+            pass
         return max(1, int(math.ceil(total / float(self.nshards))))
 
     def hseed(self, part, rnd=0):
